@@ -41,7 +41,7 @@ TR = 'chainables.transform'
 
 
 def run(ctx: Ctx):
-  for r in (r21, r22, r1, r2, r3, r4, r5, r6, r9, r11, r12, r13, r14, r15, r16, r17, r19, r20):
+  for r in (r23, r24, r21, r22, r1, r2, r3, r4, r5, r6, r9, r11, r12, r13, r14, r15, r16, r17, r19, r20):
     ctx.guard(r)
   from mlmverif.props import c09
   ctx.include('R-C12-10', 'error skipping configured on a data source survives a'
@@ -1200,11 +1200,89 @@ def r22(ctx: Ctx):
   ctx.floor(rule, 2, n)
 
 
+def r23(ctx: Ctx):
+  rule = 'R-C12-23'
+  ctx.rule(rule, '"error skipping drops only failing elements": a PER-ELEMENT flag is reset for every element. In the loops of'
+           ' iter_utils.py a name that the loop body sets to True and tests (e.g. `fetched`: "the iterator produced this'
+           ' element, so a failure now is a failed put") is also set to False INSIDE the loop — initialising it once before'
+           ' the loop makes the first good element\'s True stick: every later iterator failure is taken for a failed put,'
+           ' which is never skipped, and the stream ends with an error at the first bad element after a good one')
+  mi = ctx.repo.module('utils.iter_utils')
+  fns = list(mi.functions.values()) + [m_ for c in mi.classes.values() for m_ in c.methods.values()]
+  n = 0
+  for fi in fns:
+    for lp in ast.walk(fi.node):
+      if not isinstance(lp, (ast.While, ast.For)):
+        continue
+      def consts(val):
+        return {t.id for x in ast.walk(lp) if isinstance(x, ast.Assign) and isinstance(x.value, ast.Constant) and x.value.value is val
+                for t in x.targets if isinstance(t, ast.Name)}
+      # a per-element flag: set to True in the BODY of a try inside the loop and tested in a HANDLER of that same try
+      flags = set()
+      for t in ast.walk(lp):
+        if not isinstance(t, ast.Try):
+          continue
+        set_in_body = {tg.id for b_ in t.body for x in ast.walk(b_) if isinstance(x, ast.Assign) and isinstance(x.value, ast.Constant)
+                       and x.value.value is True for tg in x.targets if isinstance(tg, ast.Name)}
+        tested_in_handler = {y.id for h in t.handlers for x in ast.walk(h) if isinstance(x, (ast.If, ast.IfExp))
+                             for y in ast.walk(x.test) if isinstance(y, ast.Name)}
+        flags |= set_in_body & tested_in_handler
+      if not flags:
+        continue
+      outer_false = {t.id for x in walk_no_nested(fi.node) if isinstance(x, ast.Assign) and isinstance(x.value, ast.Constant)
+                     and x.value.value is False for t in x.targets if isinstance(t, ast.Name)}
+      for f in sorted(flags):
+        if f not in outer_false:
+          continue          # never reset anywhere: a latch by design (e.g. `exhausted`)
+        n += 1
+        what = f'{fi.qualname}: the per-element flag `{f}` is reset inside its loop'
+        if f in consts(False):
+          ctx.ok(rule, fi, what, lp)
+        else:
+          ctx.fail(rule, fi, what,
+                   f'`{f}` is set to True and tested inside the loop at line {lp.lineno}, but reset to False only outside it: after the'
+                   ' first element it stays True for the rest of the stream', node=lp)
+  ctx.floor(rule, 1, n)
+
+
+def r24(ctx: Ctx):
+  rule = 'R-C12-24'
+  ctx.rule(rule, '"the first error surfaces with its cause chained": an operator\'s error handler that ends in `raise ... from e`'
+           ' does not RE-RUN what just failed. Between `except Exception as e:` and the re-raise no method of self that the'
+           ' guarded `try` body calls is called again (`self._get_inputs(...)` to "describe the inputs"): when the original'
+           ' failure came from that very call, the handler fails too, the intended error is never raised and the original'
+           ' exception is only an implicit context, not the cause')
+  mi = ctx.repo.module(TF)
+  n = 0
+  for ci in mi.classes.values():
+    for name, fi in ci.methods.items():
+      for t in ast.walk(fi.node):
+        if not isinstance(t, ast.Try):
+          continue
+        tried = {c.func.attr for b in t.body for c in ast.walk(b) if isinstance(c, ast.Call) and is_self_attr(c.func)}
+        # calls made on the way INTO the try (arguments prepared just before it) belong to the guarded operation too
+        for h in t.handlers:
+          if not (h.name and any(isinstance(r_, ast.Raise) and r_.cause is not None for r_ in ast.walk(h))):
+            continue
+          n += 1
+          again = [c for b in h.body for c in ast.walk(b) if isinstance(c, ast.Call) and is_self_attr(c.func) and c.func.attr in tried]
+          what = f'{ci.name}.{name}: the error handler does not re-run the guarded calls'
+          if again:
+            ctx.fail(rule, fi, what,
+                     f'`{unparse(again[0])[:60]}` in the handler repeats a call of the guarded block: if that call is what failed, the'
+                     ' handler raises a second, unrelated-looking error before it reaches `raise ... from e`', node=again[0])
+          else:
+            ctx.ok(rule, fi, what, h)
+  ctx.floor(rule, 2, n)
+
+
 from mlmverif.selfcheck import B, OK  # noqa: E402
 
 _F = 'chainables/tree_fns.py'
 _U = 'utils/iter_utils.py'
 VARIANTS = [
+    B('fetched-flag-initialised-once', 'utils/iter_utils.py',
+      "    while not self.enqueue_done:\n      fetched = False\n      try:", "    fetched = False\n    while not self.enqueue_done:\n      try:", 'R-C12-23'),
     OK('call-wrapper-names-its-error-first', 'chainables/tree_fns.py',
        "      raise ValueError(f'Failed to call {self.fn} with inputs {shape=}') from e", "      error = ValueError(f'Failed to call {self.fn} with inputs {shape=}')\n      raise error from e"),
     OK('sink-forwards-through-a-named-generator', 'chainables/tree_fns.py',
